@@ -321,6 +321,29 @@ class Ctx:
         return 1 if printed else 0
 
 
+def validate_traces(ctx, module, traces, cfg, defs, name, chunk=4000):
+    """Batch trace validation: `traces` is a JSON-serialisable list; the trace module reads it from IOEnv.TRACE_FILE,
+    picks a trace id in its initial predicate and prints <<"ACCEPT", tid>> / <<"AT", tid, l>>.  Returns the list of
+    (index, furthest event reached) of REJECTED traces."""
+    rejected = []
+    for base in range(0, len(traces), chunk):
+        part = traces[base:base + chunk]
+        fd, path = tempfile.mkstemp(prefix='verif_trace_', suffix='.json')
+        try:
+            with os.fdopen(fd, 'w') as fh:
+                json.dump(part, fh)
+            r = ctx.tlc(module, cfg, defs=defs, name=name, env={'TRACE_FILE': path}, coverage=False, count=True)
+            acc = {v[0] for t, v in r.prints if t == 'ACCEPT'}
+            reach = {}
+            for t, v in r.prints:
+                if t == 'AT':
+                    reach[v[0]] = max(reach.get(v[0], 0), v[1])
+            rejected += [(base + tid - 1, reach.get(tid, 0)) for tid in range(1, len(part) + 1) if tid not in acc]
+        finally:
+            os.unlink(path)
+    return rejected
+
+
 def prysm_env():
     """Make `import prysm` resolve to /repo's working tree."""
     if REPO not in sys.path:
